@@ -633,6 +633,23 @@ impl Run {
         *self.level.lock().unwrap() = s.to_string();
     }
 
+    /// A panic that escaped a monitor. If it was raised inside the crate under test (its sources are
+    /// compiled from the relative path `src/...`) it happened under a call the monitor took to be total
+    /// on valid input: that is the crate's doing and a violation. Raised anywhere else (monitor code, an
+    /// `unwrap` on an unexpected `Err`, a dependency) it is a monitor problem and never a verdict.
+    pub fn escaped_panic(&self, p: &Panicked, at: &str, l: &mut Local) {
+        if p.location.starts_with("src/") {
+            l.violation(
+                format!("panic-inside-the-crate-under-a-call-assumed-total@{}", p.location),
+                format!("the crate panicked where the monitor makes a call that is total on valid input: {}", p.message),
+                json!({"what": "escaped-panic", "at": at}),
+                json!({"panic_location": p.location, "message": p.message, "monitor_position": at}),
+            );
+        } else {
+            self.inconclusive(format!("monitor_panic_{}@{}:{}", at, p.location, p.message.replace(' ', "_")));
+        }
+    }
+
     /// Run `n` work items over the configured number of threads. `f(i, local)` judges item i.
     pub fn par<F>(&self, n: u64, f: F)
     where
@@ -655,13 +672,7 @@ impl Run {
                         for i in a..b {
                             let r = caught(|| f(i, &mut l));
                             if let Err(p) = r {
-                                // a panic that escaped a monitor is a monitor bug, never a verdict
-                                self.inconclusive(format!(
-                                    "monitor_panic_item_{}@{}:{}",
-                                    i,
-                                    p.location,
-                                    p.message.replace(' ', "_")
-                                ));
+                                self.escaped_panic(&p, &format!("item_{}", i), &mut l);
                             }
                         }
                     }
